@@ -200,7 +200,7 @@ CLAIMED = {
             "both calling conventions): for all 16-bit arguments div is signed division truncating towards zero and mod "
             "its remainder (sign of the dividend), a zero divisor gives zero, results are 16-bit words and "
             "divisor*quotient+remainder recomposes the dividend; and, on the specification machine of C01, the full "
-            "contract for every machine state of eleven routines written in HERA assembly: size, ord, not and malloc in both "
+            "contract for every machine state of twelve routines written in HERA assembly: size, ord, not and malloc in both "
             "calling conventions (result, return to the caller, FP restored, SP and the caller's registers unchanged, exactly "
             "which memory cells are written), `not` and the stack `malloc` being placed at an arbitrary address (their label "
             "branches are absolute); malloc is shown to refine a bump allocator on the cell 0x4000, and for that allocator "
@@ -216,8 +216,12 @@ CLAIMED = {
             "stack that does not wrap and lies on one side of the heap (C19_chr_stack_contract). The register tstrcmp (a Python "
             "helper over memory, hand model Model/Stdlib.tstrcmp_reg tied by correspondence) is the lexicographic comparison of "
             "the two character lists for strings of any length (C19_tstrcmp_reg_is_lexicographic, _zero_iff_equal, "
-            "_antisymmetric). NOT theorems: concat, substring "
-            "(apart from their copy loop), the stack tstrcmp, the failure path of malloc "
+            "_antisymmetric). The stack tstrcmp, HERA assembly with a loop and two early exits, is proved for every pair of "
+            "strings by induction on the remaining length: the result cell receives a word whose sign is the lexicographic "
+            "comparison, control returns, FP/SP/R1..R10 are restored and nothing outside the frame is written "
+            "(C19_tstrcmp_stack_contract; carry-block on, lengths and characters below 2^15, strings outside the frame). "
+            "NOT theorems: concat, substring "
+            "(apart from their copy loop), the failure path of malloc "
             "(prints and exits) and the I/O functions — decided by running each "
             "function in both conventions on the real interpreter with edge/random arguments under random register "
             "contents (result vs independent computation, return to the caller, SP/FP restored, R1..R10 preserved in the "
